@@ -485,6 +485,25 @@ def vhdlWellTyped : Ty → VVal → Bool
   | .bv n, .vec .slv w _ | .uns n, .vec .uns w _ | .sgn n, .vec .sgn w _ => w == n
   | _, _ => false
 
+/-! ## value model of assignments and merges (what the emitted code computes) -/
+
+/-- canonical value an object of type t receives from source s whose run-time value is x (`none`: rejected / no cast).
+    Run-time sources go through the printed cast; literals become the constant `T(literal)` built by the front end. -/
+def assignValue (t : Ty) (s : Src) (x : Int) : Option Int :=
+  match s with
+  | .rt st => (castModel t t st).bind (fun e => decodeAs t (evalV e (encode st x)))
+  | l => convertLit t l
+
+/-- value the target receives when alternative `o` of a merge is taken with run-time value x: joined merges write a
+    temporary of the join type first (`temp <= cast(o); target <= cast(temp)`), unjoined ones write the target. -/
+def mergeValue (t : Ty) (opts : List Src) (o : Src) (x : Int) : Option Int :=
+  match sameLiteral opts with
+  | some a => assignValue t a x
+  | none =>
+    match tryJoin opts with
+    | some r => (assignValue r o x).bind (fun y => assignValue t (.rt r) y)
+    | none => assignValue t o x
+
 /-! ## line protocol
     `ok FORM T SRC`            -> 1 | 0                (assignOk, fixed behaviour)
     `ok0 FORM T SRC`           -> 1 | 0                (assignOkUnpatched)
@@ -493,6 +512,7 @@ def vhdlWellTyped : Ty → VVal → Bool
     `merge T SRC SRC+`         -> 1 | 0                (flat merge of two or more options)
     `nested T SRC SRC SRC`     -> 1 | 0                (`a if c else (b if c2 else d)`)
     `join SRC SRC+`            -> type token | none
+    `mergeval T i x SRC SRC+`  -> integer | none      (mergeValue: alternative i taken with value x)
     `conv T S x`               -> integer              (convert, run-time source of type S)
     `convlit T SRC`            -> integer | none
     `cast FORM T S x`          -> integer | err | none (value of the cast chosen by castModel, read through T)
@@ -567,6 +587,11 @@ def handle : List String → String
   | "join" :: srcs => match srcs.mapM parseSrc with
       | some (a :: b :: rest) => (match tryJoin (a :: b :: rest) with | some r => showTy r | none => "none")
       | _ => "bad-op"
+  | "mergeval" :: t :: ci :: x :: srcs => match parseTy t, ci.toNat?, x.toInt?, srcs.mapM parseSrc with
+      | some t, some ci, some x, some opts => match opts[ci]? with
+          | some o => (match mergeValue t opts o x with | some v => toString v | none => "none")
+          | none => "bad-op"
+      | _, _, _, _ => "bad-op"
   | ["conv", t, s, x] => match parseTy t, parseTy s, x.toInt? with
       | some t, some s, some x => toString (convert t s x)
       | _, _, _ => "bad-op"
